@@ -270,6 +270,44 @@ def run(prog, check):
                          'bill share = L0 + L1*r - L2*(AfterTax/F): current disposable income over current wealth' if ok else
                          'portfolio equation reads %s, required %s' % (got.show()[:160], want.show()[:160]),
                          'wealth that is moving (any run that does not start in the steady state) with lambda2 > 0')
+    # ---- R4: the hand-coded iterative SIM uses the book's equations ----------------------------------------------
+    sim = prog.classes.get('ModelSIMiterative')
+    if sim is not None:
+        want = {'tax': 'theta * Y', 'YD': 'Y - tax', 'C': 'alpha1 * YD + alpha2 * H_LAG', 'GUESS_Y': 'C + G',
+                'dHs': 'G - tax', 'dHh': 'YD - C', 'dH': 'dHs', 'H': 'H_LAG + dH'}
+        for mname in ('RunStep',):
+            fm = sim.methods.get(mname)
+            if fm is None:
+                continue
+            check.saw(fm)
+            got = {}
+            for n in ast.walk(fm.node):
+                if isinstance(n, ast.Assign) and isinstance(n.targets[0], ast.Name) and n.targets[0].id in want:
+                    got.setdefault(n.targets[0].id, []).append(n.value)
+            for var, w in sorted(want.items()):
+                vals = [v for v in got.get(var, []) if not isinstance(v, ast.Constant)]
+                ok = bool(vals)
+                txt = ''
+                for v in vals:
+                    txt = ast.unparse(v).replace('self.', '')
+                    a = Reader(SELF).read(Str([txt]))
+                    b = Reader(SELF).read(Str([w]))
+                    ok = ok and (a - b).is_zero()
+                check.ob('C09.R4', '%s::%s::equation(%s)' % (sim.module.rel, fm.qualname, var), ok, fm.where,
+                         '%s = %s' % (var, w) if ok else '%s is computed as `%s`, the book has %s = %s' % (var, txt, var, w),
+                         'any parameter vector / G path')
+        # lagged wealth and the exogenous path are read at T-1 / T
+        rs = sim.methods.get('RunStep')
+        if rs is not None:
+            from ..dataflow import single_assign_subst as _sas
+            sub = _sas(rs.node)
+            for n in ast.walk(rs.node):
+                if isinstance(n, ast.Assign) and isinstance(n.targets[0], ast.Name) and n.targets[0].id in ('H_LAG', 'G') and isinstance(n.value, ast.Subscript):
+                    lf = linform(n.value.slice, sub)
+                    wantl = {'self.T': 1, '': -1} if n.targets[0].id == 'H_LAG' else {'self.T': 1, '': 0}
+                    check.ob('C09.R4', '%s::%s::index(%s)' % (sim.module.rel, rs.qualname, n.targets[0].id), lin_eq(lf, wantl), rs.where,
+                             '%s read at %s' % (n.targets[0].id, ast.unparse(n.value.slice)), 'any G path / initial wealth')
+        check.floor('C09.R4', 8)
     check.floor('C09.R3', 4)
     check.floor('C09.R1', 9)
     check.floor('C09.R2', 8)
